@@ -18,7 +18,11 @@
 #include "core/arena.h"
 
 extern int h_fail_mmap;   /* io_wrap.c */
-typedef struct { size_t off, hs, len; uint32_t crc; int has_crc; int rg, col, page; } pageloc;
+typedef struct { size_t off, hs, len; uint32_t crc; int has_crc; int rg, col, page;
+                 int uniform;      /* every chunk of the row group holds as many entries as the row group has rows: only then do
+                                    * the batch reader's batches have to reach every page (a ragged history, or a repeated column,
+                                    * ends the batches where the shortest column ends) */
+               } pageloc;
 
 static int find_pages(const uint8_t* b, size_t n, pageloc* out, int cap);
 static uint8_t* write_base(hctx* h, size_t* n, int codec) {
@@ -47,12 +51,14 @@ static int find_pages(const uint8_t* b, size_t n, pageloc* out, int cap) {
     if (parquet_parse_file_metadata(b + fstart, flen, &arena, &md, &err) != CARQUET_OK) { carquet_arena_destroy(&arena); return 0; }
     for (int g = 0; g < md.num_row_groups; g++) for (int c = 0; c < md.row_groups[g].num_columns; c++) {
         parquet_column_metadata_t* cm = &md.row_groups[g].columns[c].metadata;
+        int uniform = 1;      /* judged over the whole file: a ragged row group in front would end the batches before this one */
+        for (int g2 = 0; g2 < md.num_row_groups; g2++) for (int c2 = 0; c2 < md.row_groups[g2].num_columns; c2++) if (md.row_groups[g2].columns[c2].metadata.num_values != md.row_groups[g2].num_rows) uniform = 0;
         size_t off = (size_t)cm->data_page_offset, end = off + (size_t)cm->total_compressed_size; int pg = 0;
         while (off + 8 <= fstart && off < end && k < cap) {
             parquet_page_header_t ph; size_t hs; size_t avail = fstart - off; if (avail > 256) avail = 256;
             if (parquet_parse_page_header(b + off, avail, &ph, &hs, &err) != CARQUET_OK) break;
             out[k].off = off; out[k].hs = hs; out[k].len = (size_t)ph.compressed_page_size; out[k].crc = (uint32_t)ph.crc; out[k].has_crc = ph.has_crc;
-            out[k].rg = g; out[k].col = c; out[k].page = pg++; k++;
+            out[k].rg = g; out[k].col = c; out[k].page = pg++; out[k].uniform = uniform; k++;
             off += hs + (size_t)ph.compressed_page_size;
         }
     }
@@ -155,7 +161,7 @@ static void one_damage(hctx* h, const uint8_t* base, size_t n, const pageloc* pl
     int rc = WIFEXITED(st) ? WEXITSTATUS(st) : 1000 + WTERMSIG(st);
     int changed = memcmp(dmg, base, n) != 0;
     fprintf(h->out, " | clean=%ld von=%ld vonb=%ld voff_rc=%d p_clean_ok=%d p_detected=%d p_detected_by_batch_reader=%d p_off_safe=%d\n", clean, von, vonb, rc,
-            clean >= 0, !changed || von < 0, !changed || vonb == -1, rc == 0);
+            clean >= 0, !changed || von < 0, !changed || !pl->uniform || vonb == -1, rc == 0);
     h->n_lines++;
     free(dmg); unlink(path);
 }
